@@ -15,6 +15,7 @@
 import LiteFSVerif.Gen.Ints
 import LiteFSVerif.Model.Recovery
 import LiteFSVerif.Props.C05
+import LiteFSVerif.Proofs.Wal
 
 set_option linter.unusedSimpArgs false
 
@@ -176,5 +177,26 @@ theorem C17_journal_restore (cur pre : Spec.Img) (journaled : List Nat)
     (hproto : ∀ i, i < pre.length → pre.getD i 0 ≠ cur.getD i 0 → (i + 1) ∈ journaled) :
     C05.rollback cur pre journaled = pre :=
   C05.C05_rollback_restores cur pre journaled hproto
+
+/-- WAL scan on ARBITRARY bytes (`readWALPageOffsets`: Open, checkpoint): for every database page
+    size that is a multiple of 8 (every valid SQLite page size) the scan answers — it cannot fail,
+    which for the Go code means no panic, no out-of-range slice, no misaligned checksum input,
+    whatever the header, salts, frame checksums, page size field or length of the file are -/
+theorem C17_wal_scan_total (w : ByteArray) (ps : Nat) (hps : ps % 8 = 0) :
+    ∃ r, Sqlite.walPageOffsets w ps = .ok r :=
+  Sqlite.walPageOffsets_total w ps hps
+
+/-- the same for the commit-time scan (`buildTxFrameOffsets`) from any offset, once the byte order
+    is known; with no byte order (WAL header never read) the Go code dereferences nil, which the
+    model reports as a panic (`C03`/engine suite keep that case) -/
+theorem C17_tx_scan_total (w : ByteArray) (ps off : Nat) (bigE : Bool) (s1 s2 c1 c2 : Nat) (hps : ps % 8 = 0) :
+    ∃ r, Sqlite.buildTxFrames w ps off (some bigE) s1 s2 c1 c2 = .ok r :=
+  Sqlite.buildTxFrames_total w ps off bigE s1 s2 c1 c2 hps
+
+/-- every page size LiteFS accepts is a multiple of 8 (so the two theorems above apply) -/
+theorem C17_valid_page_sizes_aligned (n : Nat) (h : Sqlite.validPageSize n = true) : n % 8 = 0 := by
+  unfold Sqlite.validPageSize at h
+  simp only [List.contains_cons, List.contains_nil, Bool.or_false, Bool.or_eq_true, beq_iff_eq] at h
+  omega
 
 end LiteFSVerif.C17
